@@ -23,14 +23,29 @@ func (fc *FnCtx) heapFieldVar(si *StructInfo, field int) string {
 
 func (fc *FnCtx) starVar(t types.Type) string {
 	sort := fc.eng.U.SortOf(t)
-	name := "P_" + mangle(string(sort))
+	name := "P_" + typeKey(t)
 	fc.stateVar(name, ArraySort(SInt, sort), true)
 	return name
 }
 
+// typeKey: a name for a Go type that is equal for identical types.
+func typeKey(t types.Type) string {
+	t = types.Unalias(t)
+	if b, ok := t.(*types.Basic); ok {
+		switch b.Kind() {
+		case types.Uint8:
+			return "uint8"
+		case types.Int32:
+			return "int32"
+		}
+		return b.Name()
+	}
+	return mangle(types.TypeString(t, func(p *types.Package) string { return p.Name() }))
+}
+
 func (fc *FnCtx) memVar(elem types.Type) string {
 	sort := fc.eng.U.SortOf(elem)
-	name := "Mem_" + mangle(string(sort))
+	name := "Mem_" + typeKey(elem)
 	fc.stateVar(name, ArraySort(SInt, ArraySort(SInt, sort)), true)
 	return name
 }
